@@ -486,6 +486,12 @@ func (c *Cursor) Filter(ctx context.Context, idxStr string, val []interface{}) e
 			}
 		}
 	}
+	if c.t.Tree.Root.Size() == 0 {
+		// nothing to scan, and a cursor cannot seek to the largest key of a tree
+		// without entries
+		c.eof = true
+		return nil
+	}
 	var err error
 	c.cursor, err = c.t.Tree.Root.Cursor(ctx)
 	if err != nil {
